@@ -18,9 +18,9 @@ theorem ceilSec_bounds (t : Nat) : t ≤ ceilSec t ∧ ceilSec t < t + 1000 ∧ 
 
 /-- The deadline of the total timeout (`TimeoutHandle.start`) is `now + total` below the
 threshold and the next whole second at or after `now + total` from the threshold on. -/
-theorem totalDeadline_spec (now d : Nat) :
-    (d < thr → totalDeadline now d = now + d) ∧
-    (d ≥ thr → now + d ≤ totalDeadline now d ∧ totalDeadline now d < now + d + 1000 ∧ totalDeadline now d % 1000 = 0) := by
+theorem totalDeadline_spec (thr now d : Nat) :
+    (d < thr → totalDeadline thr now d = now + d) ∧
+    (d ≥ thr → now + d ≤ totalDeadline thr now d ∧ totalDeadline thr now d < now + d + 1000 ∧ totalDeadline thr now d % 1000 = 0) := by
   unfold totalDeadline
   have := ceilSec_bounds (now + d)
   constructor
@@ -30,9 +30,9 @@ theorem totalDeadline_spec (now d : Nat) :
 /-- The deadline of `ceil_timeout` (connect, sock_connect) is never later than the documented
 rule (`totalDeadline`: rounding from the threshold on) and never earlier than `now + delay`;
 it differs only at `delay = threshold` exactly, where the code does not round. -/
-theorem ctxDeadline_spec (now d : Nat) :
-    now + d ≤ ctxDeadline now d ∧ ctxDeadline now d ≤ totalDeadline now d ∧
-    (d ≠ thr → ctxDeadline now d = totalDeadline now d) := by
+theorem ctxDeadline_spec (thr now d : Nat) :
+    now + d ≤ ctxDeadline thr now d ∧ ctxDeadline thr now d ≤ totalDeadline thr now d ∧
+    (d ≠ thr → ctxDeadline thr now d = totalDeadline thr now d) := by
   unfold ctxDeadline totalDeadline
   have := ceilSec_bounds (now + d)
   refine ⟨?_, ?_, ?_⟩
@@ -155,10 +155,10 @@ with exactly the documented deadline `totalDeadline now total'` (where `total'` 
 total of `ClientTimeout`), whatever phase the request stalls in first (pool wait, DNS, connect). -/
 theorem total_bound_partial (cfg : Cfg) (s : St) (T : Nat) (hp : s.pc = .idle)
     (hT : cfg.effTotal = some T) (h0 : T ≠ 0) :
-    (startR cfg s).totalT = some (totalDeadline s.now T, s.seq) := by
+    (startR cfg s).totalT = some (totalDeadline cfg.thr s.now T, s.seq) := by
   unfold startR
   simp only [hp, ne_eq, not_true_eq_false, ↓reduceIte]
-  have ha : (armStart cfg s).totalT = some (totalDeadline s.now T, s.seq) := by
+  have ha : (armStart cfg s).totalT = some (totalDeadline cfg.thr s.now T, s.seq) := by
     unfold armStart; simp only [hT, h0, ↓reduceIte]
     repeat (first | rfl | split)
   split
@@ -169,10 +169,10 @@ theorem total_bound_partial (cfg : Cfg) (s : St) (T : Nat) (hp : s.pc = .idle)
 `ctxDeadline now connect` before the pool wait, so pool wait + DNS + connect share one deadline. -/
 theorem connect_bound_partial (cfg : Cfg) (s : St) (c : Nat) (hp : s.pc = .idle)
     (hc : cfg.connect = some c) (h0 : c ≠ 0) :
-    ∃ q, (startR cfg s).connT = some (ctxDeadline s.now c, q) := by
+    ∃ q, (startR cfg s).connT = some (ctxDeadline cfg.thr s.now c, q) := by
   unfold startR
   simp only [hp, ne_eq, not_true_eq_false, ↓reduceIte]
-  have ha : ∃ q, (armStart cfg s).connT = some (ctxDeadline s.now c, q) := by
+  have ha : ∃ q, (armStart cfg s).connT = some (ctxDeadline cfg.thr s.now c, q) := by
     unfold armStart; simp only [hc, h0, ↓reduceIte]
     split
     · split <;> exact ⟨_, rfl⟩
@@ -185,7 +185,7 @@ theorem connect_bound_partial (cfg : Cfg) (s : St) (c : Nat) (hp : s.pc = .idle)
 `ctxDeadline now sock_connect`; the request-level bound is therefore `naddr` times the
 configured value (see the finding reported with this property). -/
 theorem sock_connect_bound_partial (cfg : Cfg) (s : St) (c : Nat) (hc : cfg.sockConnect = some c) (h0 : c ≠ 0) :
-    (attemptConn cfg s).sockT = some (ctxDeadline s.now c, s.seq) ∧ (attemptConn cfg s).pc = .connecting := by
+    (attemptConn cfg s).sockT = some (ctxDeadline cfg.thr s.now c, s.seq) ∧ (attemptConn cfg s).pc = .connecting := by
   unfold attemptConn; simp [hc, h0]
 
 /-- **sock_read_bound (partial: the armed deadline and its exception).** Every reschedule arms the
@@ -223,8 +223,8 @@ example :
     chk { total := some 7500, useDns := true } [(3, [.startR])] = true ∧
     chk { total := some 7500 } [(3, [.startR])] = true ∧
     chk { total := some 7500, wstall := true } [(3, [.startR]), (10, [.connDone 0])] = true ∧
-    chk { total := some 7500 } [(3, [.startR]), (10, [.connDone 0]), (20, [.bytes ⟨9, false, 0, false, false⟩])] = true ∧
-    chk { total := some 7500 } [(3, [.startR]), (10, [.connDone 0]), (20, [.bytes ⟨40, true, 3, false, false⟩])] = true := by
+    chk { total := some 7500 } [(3, [.startR]), (10, [.connDone 0]), (20, [.bytes ⟨9, false, 0, false, false, false⟩])] = true ∧
+    chk { total := some 7500 } [(3, [.startR]), (10, [.connDone 0]), (20, [.bytes ⟨40, true, 3, false, false, false⟩])] = true := by
   decide +kernel
 
 /-- kernel-checked runs for the three seeded defects' scenarios (the universally quantified
@@ -240,10 +240,10 @@ example :
       [(3, [.startR]), (13, [.connDone 0]), (777, [.cancel])])
     let c2 : Cfg := { total := some 1500, closeDelim := true }
     let s2 := observe c2 (run c2 (init false)
-      [(1003, [.startR]), (1093, [.connDone 0]), (1183, [.bytes ⟨40, true, 10, false, false⟩])])
+      [(1003, [.startR]), (1093, [.connDone 0]), (1183, [.bytes ⟨40, true, 10, false, false, false⟩])])
     let c3 : Cfg := { closeDelim := true }
     let s3 := observe c3 (run c3 (init false)
-      [(3, [.startR]), (13, [.connDone 0]), (20, [.bytes ⟨40, true, 10, false, false⟩]), (30, [.peerEof])])
+      [(3, [.startR]), (13, [.connDone 0]), (20, [.bytes ⟨40, true, 10, false, false, false⟩]), (30, [.peerEof])])
     (s1.pc = .done .cancelled 777 ∧ s1.wr = .cancelled ∧ s1.slot = .none ∧ s1.tr = .closed) ∧
     (s2.pc = .done .timeout 2503 ∧ s2.slot = .none ∧ s2.tr = .closed ∧ s2.pooled = false) ∧
     (s3.pc = .done .ok 30 ∧ s3.slot = .none ∧ s3.tr = .closed ∧ s3.pooled = false) := by
@@ -286,13 +286,27 @@ ok at once, the writer task is cancelled, connection closed (body unread), slot 
 example :
     let c1 : Cfg := { wstall := true, early := true }
     let s1 := observe c1 (run c1 (init false)
-      [(3, [.startR]), (13, [.connDone 0]), (103, [.bytes ⟨45, true, 6, false, false⟩])])
+      [(3, [.startR]), (13, [.connDone 0]), (103, [.bytes ⟨45, true, 6, false, false, false⟩])])
     let c2 : Cfg := { wstall := true, total := some 2000 }
     let s2 := observe c2 (run c2 (init false)
-      [(3, [.startR]), (13, [.connDone 0]), (103, [.bytes ⟨45, true, 6, false, false⟩])])
+      [(3, [.startR]), (13, [.connDone 0]), (103, [.bytes ⟨45, true, 6, false, false, false⟩])])
     (s1.pc = .done .ok 103 ∧ s1.wr = .cancelled ∧ s1.slot = .none ∧ s1.tr = .closed ∧ s1.pooled = false) ∧
     (s2.pc = .done .timeout 2003 ∧ s2.wr = .cancelled ∧ s2.slot = .none ∧ s2.tr = .closed) := by
   decide +kernel
+
+/-- **redirect_keeps_total.** Following a redirect (release of the 3xx response's connection, new
+`connect()` for the next hop) leaves the total timer exactly as it was armed at the start of the
+request: `total` spans all hops, whereas the connect window is armed afresh (`armConn`). -/
+theorem redirect_keeps_total (cfg : Cfg) (s : St) : (redirectStep cfg s).totalT = s.totalT := by
+  have hr : ∀ u : St, (releaseWaiter cfg u).totalT = u.totalT := by
+    intro u; unfold releaseWaiter; repeat (first | rfl | split)
+  have ha : ∀ u : St, (armConn cfg u).totalT = u.totalT := by
+    intro u; unfold armConn; repeat (first | rfl | split)
+  unfold redirectStep
+  simp only []
+  split
+  · simp only [ha, hr]; rfl
+  · rw [(createConn_keeps cfg _).1, ha, hr]; rfl
 
 /-! ## others are unaffected -//-! ## others are unaffected -/
 
